@@ -157,6 +157,10 @@ pub fn run_check(sc: &dyn Scenario, tier: Tier) -> Report {
         cx.handle(v.sig.clone(), v.detail.clone(), case, false);
     }
     let Cx { lines, reported, n_viol, n_known, mut harness_error, .. } = cx;
+    let hp = crate::core::HARNESS_PANICS.load(std::sync::atomic::Ordering::SeqCst);
+    if hp > 0 && harness_error.is_none() {
+        harness_error = Some(format!("{} panic(s) in harness code (outside calls into the crate under test); see stderr", hp));
+    }
 
     // ---- evidence ------------------------------------------------------------------------------
     let mut ev = sc.evidence(tier, seed);
@@ -243,8 +247,16 @@ impl<'a> Cx<'a> {
         }
         let mut case = case;
         case["logger"] = json!(logger);
-        let min = self.sc.minimise(&case, &sig);
-        let still: Vec<Violation> = self.sc.eval(&min);
+        // the minimiser runs harness code on shrunken, possibly inconsistent cases: a panic there
+        // must not take the check down; fall back to the unminimised case
+        let min = match std::panic::catch_unwind(std::panic::AssertUnwindSafe(|| self.sc.minimise(&case, &sig))) {
+            Ok(m) => m,
+            Err(_) => {
+                self.lines.push(format!("  note: minimiser panicked on {}; reporting the unminimised case", sig));
+                case.clone()
+            }
+        };
+        let still: Vec<Violation> = std::panic::catch_unwind(std::panic::AssertUnwindSafe(|| self.sc.eval(&min))).unwrap_or_default();
         let (fin, fin_detail) = match still.iter().find(|v| v.sig == sig) {
             Some(v) => (min, v.detail.clone()),
             None => (case.clone(), detail.clone()),
